@@ -1,4 +1,4 @@
-\* after the probing, capacities 2
+\* after the probing: pieces, a pause and the full count-down of the ignore count; capacities 1
 SPECIFICATION Spec
 CONSTANTS
   Floor = 1024
@@ -6,17 +6,17 @@ CONSTANTS
   InitSize = 10240
   HardCap = 1073741824
   BoundFloor = 1048576
-  SendCap = 2
-  AckCap = 2
-  MaxBufs = {4096, 40960}
+  SendCap = 1
+  AckCap = 1
+  MaxBufs = {40960}
   Modes = {"bin"}
   Protos = {4}
   Secs = {2, 20}
-  MaxChunks = 3
+  MaxChunks = 2
   P1MaxChunks = 1
   MaxFiles = 1
   MaxPauses = 1
-  StartSizes = {1024, 10240, 40960}
+  StartSizes = {1024, 40960}
   Variant = "coded"
 INVARIANTS TypeOK SizeInRange ChunksInRange NeverRejectedByReceiver NothingQueuedIsRejected ProbeEndsOnce
   TokenPaired EncoderNotStuck OneChunkWhileProbing DoubleOnlyWhenAllowed ShrinkOnlyWhenSlow
